@@ -145,6 +145,16 @@ SubEnd(h) ==      \* next() returns None: buffer drained and the sending half is
   /\ stream' = [stream EXCEPT ![h].rx = "ended"]
   /\ UNCHANGED <<idCtr, fe, toBack, req, subIdx, bat, seen, unsubSent, inq, nPeer, nTok, pushed, fault>> /\ UNCHANGED shutVars
 
+(* Latitude of C05, not a step of the tree: the statement says a stream that lags ENDS, not when.  The tree releases the      *)
+(* sending half when the send task has processed the closure (StStep); a client may as well release it the moment the        *)
+(* overflow is noticed.  The step is not part of Next (the design that is model-checked is the tree's); the trace spec admits *)
+(* it as a silent step so that an implementation that ends a lagged stream at once is not reported.  (A notification for a    *)
+(* sink whose sending half is released counts as refused: Deliver / ProcPush.)                                                *)
+LagCloses(h) ==
+  /\ stream[h].lagged /\ stream[h].tx
+  /\ stream' = [stream EXCEPT ![h].tx = FALSE]
+  /\ UNCHANGED <<idCtr, fe, toBack, req, subIdx, bat, seen, unsubSent, inq, nPeer, nTok, pushed, fault>> /\ UNCHANGED shutVars
+
 (* Subscription::unsubscribe - client/mod.rs:303-315: an awaited send of SubscriptionClosed (two steps: the call starts, *)
 (* the message gets into the channel when there is room), then the stream is drained to its end                          *)
 SubUnsubStart(h) ==
@@ -286,7 +296,7 @@ PeerSend(m0) ==
 
 (* sink.send - client/mod.rs:623-633 + helpers.rs:94-126.  Returns the new stream record and whether a close request follows *)
 Deliver(h, n) ==
-  IF stream[h].rx \in {"dropped", "ended", "gone"} THEN [s |-> stream[h], closeReq |-> TRUE]                     \* receiver gone: Closed
+  IF stream[h].rx \in {"dropped", "ended", "gone"} \/ ~stream[h].tx THEN [s |-> stream[h], closeReq |-> TRUE]                     \* receiver gone: Closed
   ELSE IF Len(stream[h].buf) < BufCap THEN [s |-> [stream[h] EXCEPT !.buf = Append(@, n)], closeReq |-> FALSE]
   ELSE [s |-> [stream[h] EXCEPT !.lagged = TRUE], closeReq |-> TRUE]                                       \* TooSlow: lagged
 
@@ -295,7 +305,7 @@ ProcPush(e, R, S, T) ==
   CASE e.t = "notif" ->                                                   \* process_subscription_response helpers.rs:94-126
          IF Has(S, e.sub) /\ R[S[e.sub]].k = "sub"
            THEN LET h == R[S[e.sub]].h
-                    d == IF T[h].rx \in {"dropped", "ended", "gone"} THEN [s |-> T[h], c |-> TRUE]
+                    d == IF T[h].rx \in {"dropped", "ended", "gone"} \/ ~T[h].tx THEN [s |-> T[h], c |-> TRUE]   \* (~tx: see LagCloses)
                          ELSE IF Len(T[h].buf) < BufCap THEN [s |-> [T[h] EXCEPT !.buf = Append(@, e.n)], c |-> FALSE]
                          ELSE [s |-> [T[h] EXCEPT !.lagged = TRUE], c |-> TRUE]
                 IN [req |-> R, subIdx |-> S, stream |-> [T EXCEPT ![h] = d.s], fwd |-> IF d.c THEN <<e.sub>> ELSE <<>>]
